@@ -1,0 +1,168 @@
+//go:build verif
+
+package starlark
+
+// Observation hooks for external runtime monitors.
+// Compiled only with -tags verif; they add no behaviour of their own.
+
+import (
+	"fmt"
+
+	"go.starlark.net/internal/compile"
+)
+
+// VerifStepHook, if non-nil, is called at the start of every bytecode
+// instruction, after the step accounting and the cancellation test and
+// before the instruction is executed. It must be set before any thread runs.
+var VerifStepHook func(th *Thread, fn *Function, pc uint32, op uint8)
+
+func verifStep(th *Thread, fn *Function, pc uint32, op compile.Opcode) {
+	if h := VerifStepHook; h != nil {
+		h(th, fn, pc, uint8(op))
+	}
+}
+
+// VerifOpcodeName returns the mnemonic of a bytecode instruction.
+func VerifOpcodeName(op uint8) string { return compile.Opcode(op).String() }
+
+// VerifState reports the frozen flag and active-iterator count of a
+// *List, *Dict or *Set. ok is false for other values.
+func VerifState(v Value) (frozen bool, itercount uint32, ok bool) {
+	switch v := v.(type) {
+	case *List:
+		return v.frozen, v.itercount, true
+	case *Dict:
+		return v.ht.frozen, v.ht.itercount, true
+	case *Set:
+		return v.ht.frozen, v.ht.itercount, true
+	}
+	return false, 0, false
+}
+
+// VerifCheckTable checks the structural invariants of the hash table of
+// a *Dict or *Set. The caller must ensure the value is quiescent.
+func VerifCheckTable(v Value) error {
+	var ht *hashtable
+	switch v := v.(type) {
+	case *Dict:
+		ht = &v.ht
+	case *Set:
+		ht = &v.ht
+	default:
+		return fmt.Errorf("VerifCheckTable: not a dict or set: %s", v.Type())
+	}
+	return ht.verifCheck()
+}
+
+// VerifTableShape reports the number of primary buckets and of overflow
+// buckets of the hash table of a *Dict or *Set.
+func VerifTableShape(v Value) (buckets, overflow int) {
+	var ht *hashtable
+	switch v := v.(type) {
+	case *Dict:
+		ht = &v.ht
+	case *Set:
+		ht = &v.ht
+	default:
+		return 0, 0
+	}
+	for i := range ht.table {
+		for p := ht.table[i].next; p != nil; p = p.next {
+			overflow++
+		}
+	}
+	return len(ht.table), overflow
+}
+
+func (ht *hashtable) verifCheck() error {
+	if ht.table == nil {
+		if ht.len != 0 || ht.head != nil {
+			return fmt.Errorf("nil table but len=%d head=%p", ht.len, ht.head)
+		}
+		return nil
+	}
+	nb := len(ht.table)
+	if nb&(nb-1) != 0 {
+		return fmt.Errorf("table length %d is not a power of two", nb)
+	}
+	if ht.tailLink == nil {
+		return fmt.Errorf("nil tailLink")
+	}
+	// Walk the buckets: collect live slots.
+	live := make(map[*entry]int) // entry -> chain index
+	for j := range ht.table {
+		for p := &ht.table[j]; p != nil; p = p.next {
+			for i := range p.entries {
+				e := &p.entries[i]
+				if (e.hash != 0) != (e.key != nil) {
+					return fmt.Errorf("slot hash=%d but key=%v", e.hash, e.key)
+				}
+				if e.hash == 0 {
+					if e.value != nil || e.next != nil || e.prevLink != nil {
+						return fmt.Errorf("vacant slot not zeroed")
+					}
+					continue
+				}
+				if int(e.hash&uint32(nb-1)) != j {
+					return fmt.Errorf("key %v with hash %d stored in chain %d of %d", e.key, e.hash, j, nb)
+				}
+				h, err := e.key.Hash()
+				if err == nil {
+					if h == 0 {
+						h = 1
+					}
+					if h != e.hash {
+						return fmt.Errorf("key %v: stored hash %d, Hash() = %d", e.key, e.hash, h)
+					}
+				}
+				live[e] = j
+			}
+		}
+	}
+	if len(live) != int(ht.len) {
+		return fmt.Errorf("len=%d but %d slots in use", ht.len, len(live))
+	}
+	// Walk the insertion-order list.
+	seen := make(map[*entry]bool, len(live))
+	link := &ht.head
+	for e := ht.head; e != nil; e = e.next {
+		if _, ok := live[e]; !ok {
+			return fmt.Errorf("list entry %v is not a live slot", e.key)
+		}
+		if seen[e] {
+			return fmt.Errorf("list entry %v visited twice", e.key)
+		}
+		seen[e] = true
+		if e.prevLink != link {
+			return fmt.Errorf("entry %v: prevLink does not address the link to it", e.key)
+		}
+		link = &e.next
+		if len(seen) > len(live) {
+			return fmt.Errorf("list longer than table")
+		}
+	}
+	if len(seen) != len(live) {
+		return fmt.Errorf("%d live slots but %d on the insertion list", len(live), len(seen))
+	}
+	if ht.tailLink != link {
+		return fmt.Errorf("tailLink does not address the final nil link")
+	}
+	// No two live slots in one chain hold equal keys.
+	byChain := make(map[int][]*entry)
+	for e, j := range live {
+		byChain[j] = append(byChain[j], e)
+	}
+	for _, es := range byChain {
+		for a := 0; a < len(es); a++ {
+			for b := a + 1; b < len(es); b++ {
+				if es[a].hash != es[b].hash {
+					continue
+				}
+				if eq, err := Equal(es[a].key, es[b].key); err == nil && eq {
+					return fmt.Errorf("duplicate key %v", es[a].key)
+				}
+			}
+		}
+	}
+	return nil
+}
